@@ -10,7 +10,7 @@ import ast
 import hashlib
 import os
 from dataclasses import dataclass, field
-from typing import Dict, Iterator, List, Optional
+from typing import Dict, Iterator, List, Optional, Set
 
 
 @dataclass
@@ -368,12 +368,72 @@ def _aliases(fn: ast.AST) -> None:
     fn.body = prune(fn.body) or [ast.Pass()]  # type: ignore[attr-defined]
 
 
+def _set_typed_names(fn: ast.AST) -> Set[str]:
+    """Parameters and locals of a function that are sets by annotation (`Set[..]`, `set`, `MutableSet[..]`) or by every assignment
+    (`set()`, a set display, a set comprehension)."""
+    def is_set_ann(a: Optional[ast.AST]) -> bool:
+        if a is None:
+            return False
+        if isinstance(a, ast.Constant) and isinstance(a.value, str):
+            try:
+                a = ast.parse(a.value, mode="eval").body
+            except SyntaxError:
+                return False
+        base = a.value if isinstance(a, ast.Subscript) else a
+        name = base.attr if isinstance(base, ast.Attribute) else (base.id if isinstance(base, ast.Name) else None)
+        return name in ("Set", "set", "MutableSet")
+
+    out: Set[str] = set()
+    args = fn.args
+    for a in list(args.posonlyargs) + list(args.args) + list(args.kwonlyargs):
+        if is_set_ann(a.annotation):
+            out.add(a.arg)
+    assigned: Dict[str, List[bool]] = {}
+    for n in ast.walk(fn):
+        if isinstance(n, ast.AnnAssign) and isinstance(n.target, ast.Name) and is_set_ann(n.annotation):
+            out.add(n.target.id)
+        elif isinstance(n, ast.Assign) and len(n.targets) == 1 and isinstance(n.targets[0], ast.Name):
+            v = n.value
+            is_set = isinstance(v, (ast.Set, ast.SetComp)) or (isinstance(v, ast.Call) and isinstance(v.func, ast.Name) and v.func.id == "set")
+            assigned.setdefault(n.targets[0].id, []).append(is_set)
+    out |= {k for k, v in assigned.items() if v and all(v)}
+    return out
+
+
+def _set_updates(fn: ast.AST) -> None:
+    """`S.update(E)` as a statement, S a set of this function (see above), is read as `S |= E`."""
+    names = _set_typed_names(fn)
+    if not names:
+        return
+
+    def go(stmts: List[ast.stmt]) -> None:
+        for i, st in enumerate(stmts):
+            if isinstance(st, (ast.FunctionDef, ast.AsyncFunctionDef, ast.ClassDef)):
+                continue
+            if isinstance(st, ast.Expr) and isinstance(st.value, ast.Call) and isinstance(st.value.func, ast.Attribute) \
+                    and st.value.func.attr == "update" and isinstance(st.value.func.value, ast.Name) and st.value.func.value.id in names \
+                    and len(st.value.args) == 1 and not st.value.keywords and not isinstance(st.value.args[0], ast.Starred):
+                stmts[i] = ast.copy_location(ast.AugAssign(target=ast.Name(id=st.value.func.value.id, ctx=ast.Store()), op=ast.BitOr(),
+                                                           value=st.value.args[0]), st)
+                continue
+            for fld in ("body", "orelse", "finalbody"):
+                v = getattr(st, fld, None)
+                if isinstance(v, list) and v and isinstance(v[0], ast.stmt):
+                    go(v)
+            if isinstance(st, ast.Try):
+                for h in st.handlers:
+                    go(h.body)
+
+    go(fn.body)
+
+
 def canonical(tree: ast.Module) -> ast.Module:
     tree = _Canon().visit(tree)
     tree = _Canon2().visit(tree)
     for fn in [n for n in ast.walk(tree) if isinstance(n, (ast.FunctionDef, ast.AsyncFunctionDef))]:
         _aliases(fn)
         _explaining_variables(fn)
+        _set_updates(fn)
     tree = _Canon2().visit(tree)  # the substituted conditions may expose `not (..)` again
     ast.fix_missing_locations(tree)
     return tree
